@@ -217,6 +217,22 @@ pub fn format_buf(args: Vec<Rc<Object>>) -> Result<Collector, String> {
         }
         if in_spec {
             if curr == ':' {
+                // A single fill character directly followed by '<' or '>' is taken
+                // as it is, whatever it is ({:x<5}, {:b>4}, {::<3}, {:<>2})
+                if !in_spec_format && idx_fmt + 2 < parts.len() {
+                    let (fill, just) = (next, parts[idx_fmt + 2]);
+                    if (just == '<' || just == '>') && fill != '{' && fill != '}' {
+                        in_spec_format = true;
+                        curr_spec_padding = fill.to_string();
+                        curr_spec_just = if just == '<' {
+                            SpecJustify::Left
+                        } else {
+                            SpecJustify::Right
+                        };
+                        idx_fmt += 3;
+                        continue;
+                    }
+                }
                 in_spec_format = true;
                 idx_fmt += 1;
                 continue;
